@@ -55,10 +55,10 @@ def o_is_prime(n):
     if n < 2: return False
     if n % 2 == 0: return n == 2
     if n > 10 ** 7:
-        # deterministic Miller-Rabin (bases 2..37 decide all n < 3.3e24), written for the check
+        # deterministic Miller-Rabin (bases 2..41 decide all n < 3.3e24; 2..37 only up to 3.18e23), written for the check
         d, r = n - 1, 0
         while d % 2 == 0: d //= 2; r += 1
-        for a in (2, 3, 5, 7, 11, 13, 17, 19, 23, 29, 31, 37):
+        for a in (2, 3, 5, 7, 11, 13, 17, 19, 23, 29, 31, 37, 41):
             if a % n == 0: continue
             x = pow(a, d, n)
             if x in (1, n - 1): continue
@@ -248,8 +248,21 @@ def in_is_prime(tier):
     yield from ((x,) for x in range(-5, N))
     # strong pseudoprimes / Carmichael numbers and squares of primes beyond the trial-division list
     for x in (561, 1105, 1729, 2047, 3277, 4033, 4681, 8321, 15841, 29341, 42799, 49141, 52633, 65281, 74665, 80581, 85489, 88357, 90751,
-              1373653, 25326001, 3215031751, 59 * 59, 59 * 61, 61 * 67, 67 * 67 * 67, 2 ** 31 - 1, 2 ** 61 - 1, (2 ** 31 - 1) * (2 ** 19 - 1)):
+              1373653, 25326001, 3215031751, 59 * 59, 59 * 61, 61 * 67, 67 * 67 * 67, 2 ** 31 - 1, 2 ** 61 - 1, (2 ** 31 - 1) * (2 ** 19 - 1),
+              341550071728321, 3825123056546413051, 318665857834031151167461):
         yield (x,)
+    # composites without a prime factor in the trial-division list: every product of two or three primes in 59..T, and the Chernick
+    # Carmichael numbers (6k+1)(12k+1)(18k+1) (Euler pseudoprimes to every coprime base when k is even... all of them are tried)
+    ps = [q for q in range(59, T(tier, 260, 700)) if o_is_prime(q)]
+    for i, a in enumerate(ps):
+        for b in ps[i:]:
+            yield (a * b,)
+            for c in ps[:12]:
+                yield (a * b * c,)
+    for k in range(1, T(tier, 3000, 60000)):
+        a, b, c = 6 * k + 1, 12 * k + 1, 18 * k + 1
+        if a > 53 and o_is_prime(a) and o_is_prime(b) and o_is_prime(c):
+            yield (a * b * c,)
 
 
 def in_fpp(tier):
@@ -270,7 +283,7 @@ NATIVE = {n.name: n for n in [
     Native('ratrec', 'mpyc.gmpy.ratrec', lambda x, y, N, D: _G().ratrec(x, y, N, D), ck_ratrec,
            lambda t: ((x, y, N, D) for y in range(1, T(t, 40, 90)) for x in range(0, y) for N in (None, 0, 1, 2, 3, 5) for D in (None, 1, 2, 3, 4)),
            '1 <= y < 40 (thorough 90), 0 <= x < y, N in {None,0,1,2,3,5}, D in {None,1,2,3,4}'),
-    Native('is_prime', 'mpyc.gmpy.is_prime', lambda x: _G().is_prime(x), ck_is_prime, in_is_prime, 'all x < 20000 (thorough 200000) + pseudoprime list'),
+    Native('is_prime', 'mpyc.gmpy.is_prime', lambda x: _G().is_prime(x), ck_is_prime, in_is_prime, 'all x < 20000 (thorough 200000) + strong-pseudoprime list + all products of 2 or 3 primes in 59..260 (700) + Chernick Carmichael numbers k < 3000 (60000)'),
     Native('next_prime', 'mpyc.gmpy.next_prime', lambda x: _G().next_prime(x), ck_next_prime,
            lambda t: ((x,) for x in range(-5, T(t, 5000, 50000))), '-5 <= x < 5000 (thorough 50000)'),
     Native('prev_prime', 'mpyc.gmpy.prev_prime', lambda x: _G().prev_prime(x), ck_prev_prime,
